@@ -5,6 +5,7 @@ package main
 import (
 	"encoding/json"
 	"fmt"
+	"os"
 	"strings"
 	"testing"
 
@@ -116,6 +117,19 @@ func c07Check(c c07Case) (out kit.Outcome) {
 		out.Label("has-misuse")
 	}
 	out.Nontrivial = misuse && fault
+	if os.Getenv("VERIF_RACE") != "" {
+		// race-detector build of the hosts: only the crash-relevant finding is judged (timing bounds mean nothing here)
+		out.Label("race-detector-host")
+		for _, r := range run.Races {
+			fn := strings.SplitN(r, "@", 2)[0]
+			fn = fn[strings.LastIndex(fn, ".")+1:]
+			out.Violate("C07/map-race/"+fn, "unsynchronised Go map accessed from two goroutines of the emulator (the Go runtime kills the process with 'concurrent map read and map write' when they overlap): %s", r)
+		}
+		if run.Died {
+			out.Violate("C07/host-died/"+panicKind(run.Stderr), "emulator process died: %s", panicLine(run.Stderr))
+		}
+		return out
+	}
 	if run.Died {
 		out.Violate("C07/host-died/"+panicKind(run.Stderr), "emulator process died: %s", panicLine(run.Stderr))
 		return out
